@@ -1,4 +1,5 @@
 import Proofs.Lemmas.HeapSpecLocal
+import Proofs.Lemmas.RefSlotLocal
 import Generated.C06ScalarWrites
 /-!
 # C06 — arrays are values: writes through a copy never show through the original
@@ -534,5 +535,126 @@ def prog₁ : List Op :=
    .setVar 1 (.call (.idx (.var 3) (.int 1))), .meth (.idx (.var 1) (.int 0)) .shift, .unset (.prop 0 0) (.int 0)]
 example : obsProp (abs (run .fixed 4 prog₁)) 0 0 = [3] ∧ obsProp (Spec.Val.run 4 prog₁) 0 0 = [3] ∧
     obs (abs (run .fixed 4 prog₁)) 3 = [0, 1, 2, 3] ∧ obs (abs (run .fixed 4 prog₁)) 1 = [2, 3] := by decide +kernel
+
+/-! ## References to array slots: the mark on a slot counts its live binders
+
+`Model.RefSlot` (flat integer arrays, cells with a value and the mark `RefSlotCount`, reference
+variables and by-reference parameters bound to slots).  What a copy shares with its source
+depends on the marks earlier statements left on the source: `copy` hands over the very cells,
+`store` replaces an unmarked cell and writes a marked one in place.  The property therefore needs
+the mark to be *exact*: under `Cfg.counted` it IS the number of live binders, on every program. -/
+
+/-- **The mark is the number of live binders** — after every program (any statements, any
+order, copies made while references are live included), for every cell. -/
+theorem C06_binder_count_exact (nv nr : Nat) (ops : List Model.RefSlot.Op) (c : Nat) (cl : Model.RefSlot.Cell)
+    (h : (Model.RefSlot.run .counted nv nr ops).heap[c]? = some cl) :
+    cl.cnt = Model.RefSlot.binders (Model.RefSlot.run .counted nv nr ops) c :=
+  (Proofs.RefSlot.wf_run nv nr ops).count c cl h
+
+/-- **After the last binder has gone the slot is an ordinary value slot.**  After ANY program
+that ends with no reference variable / parameter bound (whatever was bound, written through,
+copied while bound and released before): no cell is marked, and for `$x = $y` made now a store
+through either name leaves the other name as it was — `$x = $y; $x[i] = v` does not change `$y`,
+`$x = $y; $y[i] = v` does not change `$x`. -/
+theorem C06_released_slot_is_value_slot (nv nr : Nat) (ops : List Model.RefSlot.Op)
+    (hq : ∀ (r c : Nat) (k : Model.RefSlot.Kind), (Model.RefSlot.run .counted nv nr ops).bnd[r]? ≠ some (some (c, k)))
+    (x y i : Nat) (v : Int) (hxy : x ≠ y) :
+    (∀ (c : Nat) (cl : Model.RefSlot.Cell), (Model.RefSlot.run .counted nv nr ops).heap[c]? = some cl → cl.cnt = 0) ∧
+    (Model.RefSlot.vals (Model.RefSlot.run .counted nv nr (ops ++ [.copy x y, .store x i v])))[y]? =
+      (Model.RefSlot.vals (Model.RefSlot.run .counted nv nr (ops ++ [.copy x y])))[y]? ∧
+    (Model.RefSlot.vals (Model.RefSlot.run .counted nv nr (ops ++ [.copy x y, .store y i v])))[x]? =
+      (Model.RefSlot.vals (Model.RefSlot.run .counted nv nr (ops ++ [.copy x y])))[x]? := by
+  have hw := Proofs.RefSlot.wf_run nv nr ops
+  have hu := Proofs.RefSlot.unmarked_of_no_binder _ hw hq
+  have hcb := Proofs.RefSlot.copy_heap_bnd .counted (Model.RefSlot.run .counted nv nr ops) x y
+  have hw1 : Proofs.RefSlot.WF (Model.RefSlot.run .counted nv nr (ops ++ [.copy x y])) :=
+    Proofs.RefSlot.wf_run nv nr _
+  have e1 : Model.RefSlot.run .counted nv nr (ops ++ [.copy x y]) =
+      Model.RefSlot.step .counted (Model.RefSlot.run .counted nv nr ops) (.copy x y) := by
+    simp [Model.RefSlot.run, List.foldl_append]
+  have hu1 : ∀ (c : Nat) (cl : Model.RefSlot.Cell),
+      (Model.RefSlot.run .counted nv nr (ops ++ [.copy x y])).heap[c]? = some cl → cl.cnt = 0 := by
+    rw [e1, hcb.1]; exact hu
+  have e2 : ∀ w, Model.RefSlot.run .counted nv nr (ops ++ [.copy x y, w]) =
+      Model.RefSlot.step .counted (Model.RefSlot.run .counted nv nr (ops ++ [.copy x y])) w := by
+    intro w; simp [Model.RefSlot.run, List.foldl_append]
+  refine ⟨hu, ?_, ?_⟩
+  · rw [e2]; exact Proofs.RefSlot.store_local_of_unmarked _ hw1 hu1 x i v y (Ne.symm hxy)
+  · rw [e2]; exact Proofs.RefSlot.store_local_of_unmarked _ hw1 hu1 y i v x hxy
+
+/-- **References are gone before the array is copied ⇒ arrays are values.**  For every program
+that keeps the discipline `disc` (an array is assigned — literal or copy — only while no reference
+into an array is live; a reference variable is bound only while it is not live) the values of all
+variables computed by the implementation model equal the reference semantics `Spec.RefVal`, in
+which there are no cells and no marks, every variable holds an immutable list and a reference is
+just another name for its element.  However often elements were bound to variables or to
+by-reference parameters and released again, a later copy is independent of its source. -/
+theorem C06_reference_discipline_value_semantics (nv nr : Nat) (ops : List Model.RefSlot.Op)
+    (hd : Model.RefSlot.disc [] ops = true) :
+    Model.RefSlot.vals (Model.RefSlot.run .counted nv nr ops) = (Spec.RefVal.run nv nr ops).arrs := by
+  obtain ⟨L, hs⟩ := Proofs.RefSlot.sim_run nv nr ops hd
+  exact hs.arrs.symm
+
+/-- `$v0 = [1,2,3]; f($v0[0])` with `function f(&$p) { $p = 5; }` `; $v1 = $v0; $v1[0] = 9;` -/
+def stickyWitness : List Model.RefSlot.Op :=
+  [.lit 0 [1, 2, 3], .bind .param 0 0 0, .wr 0 5, .release 0, .copy 1 0, .store 1 0 9]
+
+/-- the same history with a VARIABLE as the binder: `$r = &$v0[0]; $r = 5; unset($r)` -/
+def staleWitness : List Model.RefSlot.Op :=
+  [.lit 0 [1, 2, 3], .bind .var 0 0 0, .wr 0 5, .release 0, .copy 1 0, .store 1 0 9]
+
+/-- **A mark that is never taken back breaks value semantics.**  If binding an element to a
+by-reference parameter marks the slot and the return of the call does not unmark it
+(`Cfg.sticky`), the disciplined program `stickyWitness` — the call has returned before the copy
+is made — ends with `$v0[0] = 9`: the later copy shares the slot.  The harness replays it on
+the real code first. -/
+theorem C06_sticky_mark_counterexample :
+    ¬ (∀ (nv nr : Nat) (ops : List Model.RefSlot.Op), Model.RefSlot.disc [] ops = true →
+        Model.RefSlot.vals (Model.RefSlot.run .sticky nv nr ops) = (Spec.RefVal.run nv nr ops).arrs) := by
+  intro h
+  have := h 2 1 stickyWitness (by decide)
+  revert this
+  decide
+
+/-- outcomes of the witness: the design and this tree (a parameter binding leaves no mark) keep
+`$v0 = [5,2,3]`, the sticky mark gives `[9,2,3]` -/
+theorem C06_sticky_witness_outcomes :
+    Model.RefSlot.vals (Model.RefSlot.run .counted 2 1 stickyWitness) = [[5, 2, 3], [9, 2, 3]] ∧
+    Model.RefSlot.vals (Model.RefSlot.run .tree 2 1 stickyWitness) = [[5, 2, 3], [9, 2, 3]] ∧
+    (Spec.RefVal.run 2 1 stickyWitness).arrs = [[5, 2, 3], [9, 2, 3]] ∧
+    Model.RefSlot.vals (Model.RefSlot.run .sticky 2 1 stickyWitness) = [[9, 2, 3], [9, 2, 3]] := by
+  decide
+
+/-- **This tree, known finding** (`hstale:*`): `$r = &$x[i]` marks the slot and nothing ever
+unmarks it (`Cfg.tree`), so when the binder is a variable that has gone the later copy shares the
+slot — `staleWitness` ends with `$v0[0] = 9` where the design and the reference semantics give 5. -/
+theorem C06_tree_variable_binder_stale :
+    Model.RefSlot.disc [] staleWitness = true ∧
+    Model.RefSlot.vals (Model.RefSlot.run .tree 2 1 staleWitness) = [[9, 2, 3], [9, 2, 3]] ∧
+    Model.RefSlot.vals (Model.RefSlot.run .counted 2 1 staleWitness) = [[5, 2, 3], [9, 2, 3]] ∧
+    (Spec.RefVal.run 2 1 staleWitness).arrs = [[5, 2, 3], [9, 2, 3]] := by
+  decide
+
+/- non-vacuity: a disciplined program that binds, writes through, releases, copies, binds again —
+   and an undisciplined one (copy while a reference is live) that `C06_binder_count_exact` still covers -/
+def rsProg₀ : List Model.RefSlot.Op :=
+  [.lit 0 [1, 2, 3], .bind .var 0 0 1, .store 0 1 7, .wr 0 8, .bind .param 1 0 1, .wr 1 6, .release 1, .release 0,
+   .copy 1 0, .bind .var 0 1 1, .wr 0 4, .store 0 1 5, .release 0, .copy 2 1, .store 2 1 0]
+example : Model.RefSlot.disc [] rsProg₀ = true := by decide
+example : Model.RefSlot.vals (Model.RefSlot.run .counted 3 2 rsProg₀) = [[1, 5, 3], [1, 4, 3], [1, 0, 3]] := by decide
+example : ∀ (r c : Nat) (k : Model.RefSlot.Kind), (Model.RefSlot.run .counted 3 2 rsProg₀).bnd[r]? ≠ some (some (c, k)) := by
+  intro r c k
+  have : (Model.RefSlot.run .counted 3 2 rsProg₀).bnd = [none, none] := by decide
+  rw [this]
+  match r with
+  | 0 => simp
+  | 1 => simp
+  | n + 2 => simp
+/- copy while a reference is live: the slot is shared by both copies (as in PHP), the mark counts one binder -/
+example : Model.RefSlot.disc [] [.lit 0 [1, 2], .bind .var 0 0 0, .copy 1 0, .store 1 0 9] = false := by decide
+example : Model.RefSlot.vals (Model.RefSlot.run .counted 2 1 [.lit 0 [1, 2], .bind .var 0 0 0, .copy 1 0, .store 1 0 9]) =
+    [[9, 2], [9, 2]] := by decide
+example : ((Model.RefSlot.run .counted 2 1 [.lit 0 [1, 2], .bind .var 0 0 0, .copy 1 0, .store 1 0 9]).heap.map (·.cnt)) =
+    [0, 0, 1] := by decide
 
 end C06
